@@ -207,7 +207,7 @@ def split_bodies(text):
         l = lines[i]
         m1 = _SIMPLE_CONST.match(l)
         if m1:
-            simple[m1.group(1)] = m1.group(3)
+            simple.setdefault(m1.group(1), []).append((i + 1, m1.group(3)))
             i += 1
             continue
         if HEAD_RE.match(l) and l.rstrip().endswith('{'):
